@@ -401,6 +401,7 @@ public:
     FastRational operator%(const FastRational& d) {
         assert(isInteger() && d.isInteger());
         if (wordPartValid() && d.wordPartValid()) {
+            if (d.num == -1) { return 0; } // INT_MIN % -1 traps
             uword w = absVal(num % d.num);  // Largest value is absVal(INT_MAX % INT_MIN) = INT_MAX
             return (word)(d.num > 0 ? w : -w); // No overflow since 0 <= w <= INT_MAX
         }
